@@ -36,6 +36,9 @@ func runC11(w *World, r *Report) {
 	c11NameInPath(w, r)
 	c11AliasesFirst(w, r)
 	c11EnabledBeforeImport(w, r)
+	c11CRDsAfterPrune(w, r)
+	c11SearchExhausts(w, r)
+	c11Recursion(w, r)
 	r.Rule("C11/ENABLED-VALUES", "the values from which dependencies are enabled or disabled are the values that are rendered and recorded: install and upgrade hand one values object to dependency processing, rendering and the new record", 2)
 	c13Current(w, r, "C11/ENABLED-VALUES", true)
 	c13InstallValues(w, r, "C11/ENABLED-VALUES")
@@ -966,5 +969,174 @@ func c11AliasWhole(w *World, r *Report, rule string) {
 			}
 		}
 		r.Check(whole || len(missing) == 0, rule, fmt.Sprintf("alias-copy#%d/whole", i+1), w.Pos(a.Pos()), "the copy carries every field of the loaded chart", "the copy handed out for a dependency leaves fields of the loaded chart behind ("+strings.Join(missing, ", ")+"): an aliased dependency loses them (without Schema its values are no longer validated)")
+	}
+}
+
+// c11CRDsAfterPrune: the CRDs that install sends to the cluster are those of the chart tree after
+// disabled dependencies were removed.
+func c11CRDsAfterPrune(w *World, r *Report) {
+	r.Rule("C11/CRDS-AFTER-PRUNE", "in install the chart's CRD objects are collected only after dependency processing succeeded (a disabled dependency's crds/ are not installed)", 1)
+	fn := w.Fn("pkg/action", "Install.RunWithContext")
+	if fn == nil {
+		r.Unk("C11/CRDS-AFTER-PRUNE", "anchor", "-", "Install.RunWithContext not found")
+		return
+	}
+	r.Fn(FuncName(fn))
+	g := FullGraph(fn)
+	var pd []ssa.CallInstruction
+	var crds []ssa.CallInstruction
+	for _, c := range callInstrs(fn) {
+		f, _ := calleeOf(c.Common())
+		if f == nil {
+			continue
+		}
+		switch FuncName(f) {
+		case "pkg/chart/v2/util.ProcessDependencies", "pkg/chart/v2/util.ProcessDependenciesWithMerge":
+			pd = append(pd, c)
+		case "(*pkg/chart/v2.Chart).CRDObjects":
+			crds = append(crds, c)
+		}
+	}
+	if len(crds) == 0 {
+		r.OKTrivial("C11/CRDS-AFTER-PRUNE", "none", w.Pos(fn.Pos()), "RunWithContext does not collect CRDs itself")
+		return
+	}
+	for i, c := range crds {
+		ok := false
+		for _, p := range pd {
+			if g.AfterOK(p, posOf(c)) {
+				ok = true
+			}
+		}
+		r.Check(ok, "C11/CRDS-AFTER-PRUNE", fmt.Sprintf("crds#%d", i+1), w.InstrPos(c), "CRDs are collected from the pruned tree", "the CRDs are collected before dependency processing removed the disabled dependencies: a dependency switched off by its condition or tags still gets its crds/ installed")
+	}
+}
+
+// c11SearchExhausts: a loaded chart that does not satisfy a dependency's version range is passed over
+// and the search goes on (the same chart name may be vendored in two versions): the range test is made
+// per candidate, inside the search.
+func c11SearchExhausts(w *World, r *Report) {
+	r.Rule("C11/SEARCH-EXHAUSTS", "getAliasDependency tests the version range for each candidate inside its search over the loaded charts (a mismatch does not end the search)", 1)
+	fn := w.Fn("pkg/chart/v2/util", "getAliasDependency")
+	if fn == nil {
+		r.Unk("C11/SEARCH-EXHAUSTS", "anchor", "-", "getAliasDependency not found")
+		return
+	}
+	r.Fn(FuncName(fn))
+	scc := sccOf(fn)
+	n := 0
+	for _, f := range withAnon(fn) {
+		for _, c := range callInstrs(f) {
+			cf, _ := calleeOf(c.Common())
+			if cf == nil || FuncName(cf) != "pkg/chart/v2/util.IsCompatibleRange" {
+				continue
+			}
+			n++
+			inSearch := f != fn // inside a predicate handed to slices.IndexFunc / ContainsFunc
+			if f == fn {
+				b := c.Block()
+				if len(scc[b]) > 1 {
+					inSearch = true
+				}
+				for _, s := range b.Succs {
+					if s == b {
+						inSearch = true
+					}
+				}
+			}
+			r.Check(inSearch, "C11/SEARCH-EXHAUSTS", fmt.Sprintf("range-test#%d", n), w.InstrPos(c), "the version range is tested per candidate", "the version range is tested once, after a candidate was picked by name: when a chart is vendored in two versions the dependency that needs the second one is never resolved (and silently vanishes)")
+		}
+	}
+	if n == 0 {
+		r.Unk("C11/SEARCH-EXHAUSTS", "no-site", w.Pos(fn.Pos()), "getAliasDependency does not test the version range")
+	}
+}
+
+// c11Recursion: conditions and tags are evaluated at every level of the tree: processDependencyEnabled
+// returns successfully only after it went through the loop that recurses into the kept dependencies —
+// except for a chart that declares no dependencies at all.
+func c11Recursion(w *World, r *Report) {
+	r.Rule("C11/RECURSES", "processDependencyEnabled reaches a success return only through its recursion over the kept dependencies, or on the edge where the chart declares no dependencies", 1)
+	fn := w.Fn("pkg/chart/v2/util", "processDependencyEnabled")
+	if fn == nil {
+		r.Unk("C11/RECURSES", "anchor", "-", "processDependencyEnabled not found")
+		return
+	}
+	r.Fn(FuncName(fn))
+	g := FullGraph(fn)
+	var rec []ssa.CallInstruction
+	for _, c := range callInstrs(fn) {
+		if f, _ := calleeOf(c.Common()); f != nil && origin(f) == fn {
+			rec = append(rec, c)
+		}
+	}
+	if len(rec) == 0 {
+		r.Bad("C11/RECURSES", "recursion", w.Pos(fn.Pos()), "processDependencyEnabled no longer recurses into the dependencies: conditions and tags below the first level are never evaluated")
+		return
+	}
+	// the header of the loop the recursive call sits in: passing it is "went through the recursion" (the loop may run zero times)
+	scc := sccOf(fn)
+	var hdr []ssa.Instruction
+	for _, b := range scc[rec[0].Block()] {
+		for _, p := range b.Preds {
+			inside := false
+			for _, x := range scc[rec[0].Block()] {
+				if x == p {
+					inside = true
+				}
+			}
+			if !inside && len(b.Instrs) > 0 {
+				hdr = append(hdr, b.Instrs[0])
+			}
+		}
+	}
+	if len(hdr) == 0 {
+		hdr = append(hdr, rec[0])
+	}
+	// no declared dependencies: Metadata.Dependencies == nil / len == 0
+	var noDeps []Edge
+	for _, b := range fn.Blocks {
+		for _, in := range b.Instrs {
+			bo, ok := in.(*ssa.BinOp)
+			if !ok || (bo.Op != token.EQL && bo.Op != token.NEQ) {
+				continue
+			}
+			var other ssa.Value
+			if isNilConst(bo.Y) {
+				other = bo.X
+			} else if isNilConst(bo.X) {
+				other = bo.Y
+			}
+			if ld, ok := other.(*ssa.UnOp); ok {
+				if _, t, f := fieldNameOf(ld.X); t == "Metadata" && f == "Dependencies" {
+					for _, e := range condEdges(bo) {
+						if e.truth == (bo.Op == token.EQL) {
+							noDeps = append(noDeps, e.Edge)
+						}
+					}
+				}
+			}
+		}
+	}
+	empty, _ := emptyEdges(fn, func(v ssa.Value) bool {
+		ld, ok := v.(*ssa.UnOp)
+		if !ok {
+			return false
+		}
+		_, t, f := fieldNameOf(ld.X)
+		return t == "Metadata" && f == "Dependencies"
+	})
+	noDeps = append(noDeps, empty...)
+	n := 0
+	for i, rp := range g.classifyReturns() {
+		if rp.Class != RetSuccess {
+			continue
+		}
+		n++
+		ex, _ := g.PathExists(entryPos(fn), retPos(rp), avoidInstrs(hdr...).withEdges(noDeps...))
+		r.Check(!ex, "C11/RECURSES", fmt.Sprintf("return#%d", i), w.InstrPos(rp.Ret), "success only after the recursion (or for a chart without declared dependencies)", "processDependencyEnabled can return successfully without recursing into the dependencies although the chart declares some: conditions and tags of the charts below are never evaluated, and their disabled dependencies stay")
+	}
+	if n == 0 {
+		r.Unk("C11/RECURSES", "no-success", w.Pos(fn.Pos()), "no success return found")
 	}
 }
